@@ -83,3 +83,17 @@ def extremes(env):
     """z3 Bool: some symbolic box bound sits on the edge of the default 16-bit range (used to bias a second validation sample)"""
     ext = [v.e == LO16 for k, v in env.items() if k.startswith("lo_")] + [v.e == HI16 for k, v in env.items() if k.startswith("hi_")]
     return z3.Or(ext) if ext else None
+
+
+def warm(ns, m):
+    """call-history prefix: side-effect-free queries issued on the object before the operation under test
+    (results discarded); anything they cache or change on the object must not alter what follows"""
+    for f in ("flatten", "errors", "to_text", "to_short", "_dependencies"):     # to_json forks on value/sign of every node: left to C09/C16
+        try:
+            getattr(m, f)()
+        except Exception:   # noqa
+            pass
+    try:
+        m.variables
+    except Exception:   # noqa
+        pass
